@@ -275,17 +275,11 @@ namespace glm
 
 	GLM_FUNC_QUALIFIER int floatDistance(float x, float y)
 	{
-		detail::float_t<float> const a(x);
-		detail::float_t<float> const b(y);
-
-		return abs(a.i - b.i);
+		return static_cast<int>(detail::float_distance_ulps(x, y));
 	}
 
 	GLM_FUNC_QUALIFIER int64 floatDistance(double x, double y)
 	{
-		detail::float_t<double> const a(x);
-		detail::float_t<double> const b(y);
-
-		return abs(a.i - b.i);
+		return static_cast<int64>(detail::float_distance_ulps(x, y));
 	}
 }//namespace glm
